@@ -22,8 +22,9 @@ Normalisation of the estimated Kneser-Ney model (property C06), exact `Rat`, unb
   way `uniform` is computed.
 * `exSys_ok`, `exCtx_ok` — non-vacuity of `System.OK` and `TableOK` on tiny concrete systems.
 
-Nothing here is assumed about probabilities: `TableOK` speaks about the records only (lengths,
-no duplicates, closure of the kept n-grams, positive counts of order ≥ 2, specials).
+Nothing is assumed about probabilities: apart from `uniformOK` (discharged by `uniformOK_of`),
+`TableOK` speaks about the records only (lengths, no duplicates, closure of the kept n-grams,
+positive counts of order ≥ 2, specials).
 -/
 namespace KV.KN.Norm
 
